@@ -131,13 +131,14 @@ def body(c):
     c.model_check("ResourceTracker[paths created again]", "ResourceTracker", cfg("mcr", 6, use=("g", "d"), clients=(1,), recreate=True), workers=16, timeout=1500)
     L = 3 if c.quick else 4
     r = tlc.run("ResourceTracker", cfg("gen", L, gen=True), workers=1, timeout=1500, heap="6g"); c.add_tlc("ResourceTracker-gen[L=%d]" % L, r)
-    hists = tlc.printed_json(r)
+    capg = 5000 if c.quick else 100000
+    hists = tlc.printed_json(r, sample=capg, seed=c.seed); c.extra["sequences_exhaustive_total"] = getattr(r, "printed_total", len(hists)); r.output = ""
     r = tlc.run("ResourceTracker", cfg("genf", 4 if c.quick else 5, gen=True, use=("d", "e", "h"), clients=(1,)), workers=1, timeout=1500, heap="6g"); c.add_tlc("ResourceTracker-gen[folders]", r)
-    hf = tlc.printed_json(r)
+    hf = tlc.printed_json(r, sample=capg, seed=c.seed + 1); c.extra["sequences_folders_total"] = getattr(r, "printed_total", len(hf)); r.output = ""
     c.extra["sequences_folders"] = len(hf)
     # names that come back after they were deleted (a count that reached zero while the path was already gone, then a new file there)
     r = tlc.run("ResourceTracker", cfg("genr", 5 if c.quick else 6, gen=True, use=("g", "d"), clients=(1,), recreate=True), workers=1, timeout=1500, heap="6g"); c.add_tlc("ResourceTracker-gen[recreate]", r)
-    hr = [h for h in tlc.printed_json(r) if any(e["cmd"] == "CREATE" for e in h)]
+    hr = [h for h in tlc.printed_json(r, sample=4 * capg, seed=c.seed + 2) if any(e["cmd"] == "CREATE" for e in h)]; c.extra["sequences_recreate_total"] = getattr(r, "printed_total", len(hr)); r.output = ""
     c.extra["sequences_recreate"] = len(hr)
     if len(hr) > (3000 if c.quick else 60000): hr = rng.sample(hr, 3000 if c.quick else 60000)
     r = tlc.run("ResourceTracker", cfg("sim", 10, gen=True, use=sorted(ALL)), simulate="num=%d" % (400 if c.quick else 4000), depth=25, seed=c.seed + 11, workers=1, timeout=900)
